@@ -135,8 +135,15 @@ def it_of(ctx, v):
         if is_sym(a) or is_sym(b):
             return Agg('It:range', None, (a, b, None))       # lazily unrolled; every step is a (forking) comparison
         return it_seq(list(range(a, b)))
+    if t is Agg and v.ty in ('RangeInclusive', 'std::ops::RangeInclusive', 'core::ops::RangeInclusive'):
+        a, b = v.fields[0], v.fields[1]
+        if is_sym(a) or is_sym(b):
+            raise Unsupported('iteration over a symbolic inclusive range')
+        return it_seq(list(range(a, b + 1)))
     if t in (bytes,):
         return it_seq(list(v))
+    if t in (str, SymStr) or t is FmtV:
+        raise Unsupported('into_iter on a string value')
     raise Unsupported('into_iter on %r' % (v,))
 
 
@@ -200,6 +207,8 @@ def it_next(ctx, it):
             return o, Agg(k, None, (i1, f[1]))
         o, i2 = it_next(ctx, f[1])
         return o, Agg(k, None, (i1, i2))
+    if k == 'It:repeat':
+        return some(f[0]), it
     if k == 'It:take':
         if is_sym(f[1]):
             # symbolic count (usize): the inner iterator is finite, so fork on "count exhausted" at each element
@@ -335,13 +344,24 @@ def install(prog):
        'Vec::as_slice', 'Vec::as_mut_slice', 'String::as_str', 'std::string::String::as_str', 'String::as_mut_str', 'PathBuf::as_path',
        'std::mem::drop', 'drop', 'Vec::into_boxed_slice', 'core::slice::into_vec', 'Rc::try_unwrap_or_clone', 'Rc::unwrap_or_clone',
        'Vec::shrink_to_fit', 'Vec::reserve', 'String::reserve', 'core::slice::as_ref', 'Option::as_deref', 'Option::as_deref_mut',
-       'Option::as_mut', 'Option::as_ref', 'std::result::Result::as_ref', 'Result::as_ref', 'Vec::leak')
+       'Option::as_ref', 'std::result::Result::as_ref', 'Result::as_ref', 'Vec::leak')
     def b_id(ctx, a, callee):
         if 'AsRef<' in callee and re.search(r'AsRef<(std::path::)?Path>', callee) and a:
             v = D(a[0])
             if type(v) in (str, SymStr):
                 return prog.to_path(v)      # &str / String viewed as a Path
         return a[0] if a else UNIT
+
+    @B('Option::as_mut', 'Option::as_deref_mut', 'Result::as_mut')
+    def b_as_mut(ctx, a, callee):
+        # Option<&mut T>: a reference *into* the payload, so that `if let Some(x) = o.as_mut() { *x += 1 }` writes through
+        if type(a[0]) is not Ref:
+            return a[0]
+        r = R(a[0])
+        v = D(r.load())
+        if callee.startswith('Option'):
+            return some(r.extend(('f', 0))) if v.variant == 1 else NONE
+        return Agg('Result', v.variant, (r.extend(('f', 0)),))
 
     @B('re:^<.* as Clone>::clone$', 'Option::cloned', 'Option::copied', 'core::slice::to_vec', 'slice::to_vec', 'str::to_owned', '<str as ToOwned>::to_owned',
        '<[] as ToOwned>::to_owned', 'Rc::clone')
@@ -835,6 +855,14 @@ def install(prog):
     @B('re:^core::num::(abs|unsigned_abs)$')
     def b_abs(ctx, a, callee):
         x = D(a[0])
+        bits, signed = int_info(callee)
+        if callee.endswith('unsigned_abs'):
+            if is_sym(x):
+                return z3.If(x < 0, -x, x)
+            return abs(x)
+        # `abs` of the minimum value overflows: a panic in the dev profile modelled here
+        if ctx.branch(to_bool(binop('Eq', x, -(1 << (bits - 1)), bits, True))):
+            raise Panic('attempt to negate with overflow', ctx.where())
         if is_sym(x):
             return z3.If(x < 0, -x, x)
         return abs(x)
@@ -1367,9 +1395,21 @@ def install(prog):
 
     @B('re:^<.* as Iterator>::sum$')
     def b_sum(ctx, a, callee):
+        m = re.search(r'sum::<&?([a-z]\w*)>', callee)
+        t = m.group(1) if m else 'usize'
+        xs = it_drain(ctx, as_it(ctx, a[0]))
+        if t in ('f64', 'f32'):
+            acc = 0.0
+            for x in xs:
+                acc = binop('Add', acc, D(x), None, True)
+            return acc
+        bits, signed = ty_bits(t)
         acc = 0
-        for x in it_drain(ctx, as_it(ctx, a[0])):
-            acc = binop('Add', acc, D(x), 64, False)
+        for x in xs:
+            x = D(x)
+            if ctx.branch(overflow_flag('Add', acc, x, bits, signed)):
+                raise Panic('attempt to add with overflow', ctx.where())       # dev profile
+            acc = binop('Add', acc, x, bits, signed)
         return acc
 
     @B('re:^<.* as Iterator>::size_hint$')
